@@ -439,6 +439,9 @@ func (g *gen) step() (Step, string) {
 			}
 		}
 	}
+	// one entry per host and per backend in a step: the last one wins
+	st.Hosts = dedupHosts(st.Hosts)
+	st.Backs = dedupBacks(st.Backs)
 	if st.Full {
 		// a full sync re-creates everything: Backs/Hosts of the step only update the desired state
 		st.Backs = nil
@@ -481,4 +484,32 @@ func (g *gen) step() (Step, string) {
 		}
 	}
 	return st, op
+}
+
+func dedupHosts(hs []HostSpec) []HostSpec {
+	last := map[string]int{}
+	for i, h := range hs {
+		last[h.Name] = i
+	}
+	var out []HostSpec
+	for i, h := range hs {
+		if last[h.Name] == i {
+			out = append(out, h)
+		}
+	}
+	return out
+}
+
+func dedupBacks(bs []BackSpec) []BackSpec {
+	last := map[string]int{}
+	for i, b := range bs {
+		last[b.ID()] = i
+	}
+	var out []BackSpec
+	for i, b := range bs {
+		if last[b.ID()] == i {
+			out = append(out, b)
+		}
+	}
+	return out
 }
